@@ -132,7 +132,10 @@ def gen_scenario(rng, index):
     else:
         policy = {"kind": "pct", "d": rng.choice([1, 2, 3])}
     return {"index": index, "texts": texts, "shared": shared, "threads": th, "policy": policy, "sched_stream": "sched",
-            "epi": rng.random(), "family": family}
+            "epi": rng.random(), "family": family,
+            # a long-lived process: this many small distinct texts are compiled (sequentially) before the threads start, so that
+            # bounded process-wide caches are full and their eviction paths run during the race
+            "preload": rng.choice([0] * 16 + [150, 300]) if family != "cold" else 0}
 
 
 # ---------------------------------------------------------------------------
@@ -243,6 +246,14 @@ class Runner:
         except Exception as e:  # noqa: BLE001
             # purely sequential inconsistency (a text accepted a moment ago is now refused): C11's business, not a schedule
             return {"result": "skip", "why": "sequential reference inconsistent: " + type(e).__name__}
+        if sc.get("preload"):
+            try:
+                for j in range(sc["preload"]):
+                    self.EE('def warm_%d { splitters: uid return "w%d.a" weighted %d, "w%d.b" weighted 1 }' % (j % 7, j, 1 + j % 5, j))
+            except threads.SimDeadlock:
+                return {"result": "skip", "why": "sequential reference deadlocks (C11's business)"}
+            except Exception as e:  # noqa: BLE001
+                return {"result": "skip", "why": "sequential preload failed: " + type(e).__name__}
         hist = []
         private = [None] * len(sc["threads"])
 
